@@ -4,6 +4,8 @@ package main
 
 import (
 	"fmt"
+	"go/token"
+	"go/types"
 	"sort"
 	"strings"
 
@@ -290,6 +292,75 @@ func isValueMatcher(want ssa.Value) func(ssa.Value) bool {
 }
 
 // intOrPercentSlot checks that slot value v is GetValueFromIntOrPercent(<params>.Strategy.RollingUpdate.<field>, total, true).
+// intOrPct is one way a value is computed by intstr.GetValueFromIntOrPercent, expressed in the
+// planner's terms: the access path of the IntOrString argument, the total and the round-up flag.
+type intOrPct struct {
+	call   *ssa.Call
+	root   ssa.Value
+	fields []string
+	total  ssa.Value // nil when it cannot be expressed in the planner
+	round  ssa.Value
+}
+
+// resolveIntOrPercent follows v to the GetValueFromIntOrPercent call(s) that produce it, directly or
+// through repository helpers that return its result (constants returned next to an error are
+// skipped); the helper's parameters are replaced by the call's arguments. ok=false when some way v
+// is produced is not such a call.
+func resolveIntOrPercent(r *Run, v ssa.Value, depth int) ([]intOrPct, bool) {
+	v = stripIntConv(v)
+	c, idx := callResult(v)
+	if c == nil || idx != 0 || depth > 3 {
+		return nil, false
+	}
+	if calleeName(&c.Call) == fnGetValueFromIntOrPct && len(c.Call.Args) == 3 {
+		root, fields := accessPath(c.Call.Args[0])
+		return []intOrPct{{call: c, root: root, fields: fields, total: c.Call.Args[1], round: c.Call.Args[2]}}, true
+	}
+	cal := staticCallee(&c.Call)
+	if cal == nil || len(cal.Blocks) == 0 || !r.Prog.IsRuleSite(cal) {
+		return nil, false
+	}
+	var out []intOrPct
+	for _, rv := range calleeResults(cal, 0) {
+		if _, isC := constInt(stripIntConv(rv)); isC {
+			continue // the value returned together with an error
+		}
+		sub, ok := resolveIntOrPercent(r, rv, depth+1)
+		if !ok {
+			return nil, false
+		}
+		arg := func(x ssa.Value) ssa.Value {
+			if x == nil {
+				return nil
+			}
+			if _, isC := x.(*ssa.Const); isC {
+				return x
+			}
+			if p, isP := stripIntConv(x).(*ssa.Parameter); isP && p.Parent() == cal {
+				if i := paramIndex(p); i >= 0 && i < len(c.Call.Args) {
+					return c.Call.Args[i]
+				}
+			}
+			return nil
+		}
+		for _, s := range sub {
+			if p, isP := s.root.(*ssa.Parameter); isP && p.Parent() == cal {
+				i := paramIndex(p)
+				if i < 0 || i >= len(c.Call.Args) {
+					return nil, false
+				}
+				r2, f2 := accessPath(c.Call.Args[i])
+				s.root, s.fields = r2, append(append([]string{}, f2...), s.fields...)
+			}
+			s.total, s.round = arg(s.total), arg(s.round)
+			out = append(out, s)
+		}
+	}
+	return out, len(out) > 0
+}
+
+// intOrPercentSlot checks that slot value v is GetValueFromIntOrPercent(<params>.Strategy.RollingUpdate.<field>, total, true),
+// computed in the planner or in a helper it calls.
 func intOrPercentSlot(r *Run, rule, slot, field string, site *cutSite, v ssa.Value, total ssa.Value) {
 	pos := r.Prog.Pos(site.call.Pos())
 	need := fmt.Sprintf("%s = GetValueFromIntOrPercent(RollingUpdate.%s, number of targeted nodes, round up)", slot, field)
@@ -298,28 +369,29 @@ func intOrPercentSlot(r *Run, rule, slot, field string, site *cutSite, v ssa.Val
 		r.Check(rule, construct, pos, shortFunc(site.planner), need, false, "the field is left at zero")
 		return
 	}
-	c, ok := isResultOf(stripIntConv(v), fnGetValueFromIntOrPct, 0)
-	if !ok || len(c.Call.Args) != 3 {
+	ways, ok := resolveIntOrPercent(r, v, 0)
+	if !ok {
 		r.Check(rule, construct, pos, shortFunc(site.planner), need, false, "filled from "+v.String())
 		return
 	}
-	pos = r.Prog.Pos(c.Pos())
-	root, path := accessPath(c.Call.Args[0])
-	_, rootIsParam := root.(*ssa.Parameter)
-	okField := rootIsParam && len(path) >= 2 && path[len(path)-1] == field && path[len(path)-2] == "RollingUpdate"
-	okTotal := total != nil && site.ff.K.key(stripIntConv(c.Call.Args[1])) == site.ff.K.key(stripIntConv(total))
-	up, isB := constBool(c.Call.Args[2])
 	var miss []string
-	if !okField {
-		miss = append(miss, "value read from "+pathString(c.Call.Args[0]))
+	for _, w := range ways {
+		pos = r.Prog.Pos(w.call.Pos())
+		_, rootIsParam := w.root.(*ssa.Parameter)
+		n := len(w.fields)
+		if !(rootIsParam && w.root.(*ssa.Parameter).Parent() == site.planner && n >= 2 && w.fields[n-1] == field && w.fields[n-2] == "RollingUpdate") {
+			miss = append(miss, "value read from "+strings.Join(w.fields, "."))
+		}
+		if !(total != nil && w.total != nil && site.ff.K.key(stripIntConv(w.total)) == site.ff.K.key(stripIntConv(total))) {
+			miss = append(miss, "percentage not resolved against the NbNodes value")
+		}
+		if w.round == nil {
+			miss = append(miss, "not rounded up")
+		} else if up, isB := constBool(w.round); !isB || !up {
+			miss = append(miss, "not rounded up")
+		}
 	}
-	if !okTotal {
-		miss = append(miss, "percentage resolved against "+c.Call.Args[1].String()+" instead of the NbNodes value")
-	}
-	if !isB || !up {
-		miss = append(miss, "not rounded up")
-	}
-	r.Check(rule, construct, pos, shortFunc(site.planner), need, len(miss) == 0, strings.Join(miss, "; "))
+	r.Check(rule, construct, pos, shortFunc(site.planner), need, len(miss) == 0, strings.Join(uniq(miss), "; "))
 }
 
 // liftAccessPath expresses the access path of v (a value of fn) in terms of the planner: when fn is a
@@ -354,6 +426,69 @@ func c03SamePath(r1 ssa.Value, f1 []string, r2 ssa.Value, f2 []string) bool {
 	return r1 == r2 && strings.Join(f1, ".") == strings.Join(f2, ".")
 }
 
+// c03InputsFilled: every field of the limits parameter struct that the limits function (or a helper it
+// calls) reads is assigned by the planner. A field that is read but left at its zero value silently
+// drops a term of the documented formula (e.g. without NbOldUnavailablePods already-unavailable
+// outdated pods are charged to the budget instead of being replaced first).
+func c03InputsFilled(r *Run, rule string, site *cutSite, slots map[string]ssa.Value) {
+	var named *types.Named
+	for _, a := range site.call.Call.Args {
+		if n, ok := a.Type().(*types.Named); ok {
+			if _, isS := n.Underlying().(*types.Struct); isS {
+				named = n
+			}
+		}
+	}
+	pos := r.Prog.Pos(site.call.Pos())
+	if named == nil {
+		return
+	}
+	isT := func(t types.Type) bool {
+		if p, ok := t.(*types.Pointer); ok {
+			t = p.Elem()
+		}
+		return types.Identical(t, named)
+	}
+	read := map[string]bool{}
+	for _, fn := range sortedFuncs(r.Prog.reachableFuncs(site.limits)) {
+		for _, b := range fn.Blocks {
+			for _, in := range b.Instrs {
+				switch x := in.(type) {
+				case *ssa.FieldAddr:
+					if !isT(x.X.Type()) {
+						continue
+					}
+					for _, rf := range refs(x) {
+						if u, isU := rf.(*ssa.UnOp); isU && u.Op == token.MUL {
+							read[fieldName(x)] = true
+						}
+					}
+				case *ssa.Field:
+					if isT(x.X.Type()) {
+						read[fieldName(x)] = true
+					}
+				}
+			}
+		}
+	}
+	var names, missing []string
+	for f := range read {
+		names = append(names, f)
+	}
+	sort.Strings(names)
+	for _, f := range names {
+		if _, ok := slots[f]; !ok {
+			missing = append(missing, f)
+		}
+	}
+	detail := fmt.Sprintf("%d field(s) read by the limits function, all assigned", len(names))
+	if len(missing) > 0 {
+		detail = "read by " + shortFunc(site.limits) + " but never assigned by the planner (left at zero): " + strings.Join(missing, ", ")
+	}
+	r.Check(rule, "limits inputs filled", pos, shortFunc(site.planner),
+		"every field of the limits parameters that the limits function reads is assigned by the planner", len(missing) == 0 && len(names) > 0, detail)
+}
+
 // c03Slots checks R3 and returns the main loop, the counter cell feeding NbOldUnavailablePods, the
 // iteration paths and the resolver (cells may live in a helper that collects the counts).
 func c03Slots(r *Run, site *cutSite) (*loopB, *ccell, []*Path, *cellResolver) {
@@ -365,6 +500,8 @@ func c03Slots(r *Run, site *cutSite) (*loopB, *ccell, []*Path, *cellResolver) {
 		r.Undecided("C03.R3", "limits arguments", pos, shortFunc(fn), why)
 		return nil, nil, nil, cr
 	}
+
+	c03InputsFilled(r, "C03.R3", site, slots)
 
 	// the main loop: the one carrying the available counter
 	var main *loopB
